@@ -196,6 +196,20 @@ def _call_solver(solver, op, call, sysrecs, gv):
             "x1_si": float(uc.project_unitful(res.xout)["si"][-1]), "success": bool(res.info.get("success", True))}
 
 
+def _snap(*dicts):
+    """bit-exact picture of the quantities in some dicts (to see whether a call changed what it was given)"""
+    out = []
+    for d in dicts:
+        for k in sorted(d or {}):
+            v = d[k]
+            try:
+                import numpy as np
+                out.append((k, repr(getattr(v, "dimensionality", "")), tuple(float(x).hex() for x in np.ravel(getattr(v, "magnitude", v)))))
+            except Exception:  # noqa
+                out.append((k, "object", type(v).__name__))
+    return out
+
+
 def _accept(a, gv, cls):
     """is the constant accepted?  how = init: by the constructor; method: by check_consistent_units() of an object
     made with the checks switched off; nochecks: is the object made at all when the checks are switched off"""
@@ -204,9 +218,16 @@ def _accept(a, gv, cls):
     if a.get("kform", "quantity") == "uncertain":
         k = pq.UncertainQuantity(float(k.magnitude), k.units, 0.05 * float(k.magnitude))
     how = a.get("how", "init")
-    if how == "init":
+    if how in ("init", "zero"):
         o = uc.observe(cls, _stoich(a["rx"]["reac"]), _stoich(a["rx"]["prod"]), param=k)
         return {"accepted": "raised" not in o, "exc": o.get("raised")}
+    if how == "inact":      # one more, inactive, reactant: the first reactant again (or D when there is none)
+        first = sorted(_stoich(a["rx"]["reac"])) or ["D"]
+        o = uc.observe(cls, _stoich(a["rx"]["reac"]), _stoich(a["rx"]["prod"]), param=k, inact_reac={first[0]: 1})
+        return {"accepted": "raised" not in o, "exc": o.get("raised")}
+    if how == "dontcheck":
+        o = uc.observe(cls, _stoich(a["rx"]["reac"]), _stoich(a["rx"]["prod"]), param=k, dont_check={"consistent_units"})
+        return {"accepted": None, "built": "raised" not in o, "exc": o.get("raised")}
     o = uc.observe(cls, _stoich(a["rx"]["reac"]), _stoich(a["rx"]["prod"]), param=k, checks=())
     if how == "nochecks":
         return {"accepted": None, "built": "raised" not in o, "exc": o.get("raised")}
@@ -262,6 +283,7 @@ def run_case(case):
                 nxt = [b for b in cin["ops"] if b["op"] == "output"]
                 oc = uc.unit_expr(nxt[0]["oc"]) if nxt else None      # None (empty expression) = keyword left out
                 ot = uc.unit_expr(nxt[0]["ot"]) if nxt else None
+                snap0 = _snap(conc, params, subs)
                 odesys, extra, obs = _eval_rates(rsys, reg, mode, conc, t1, params, oc, ot, subs, use_constants)
                 # a variation of the initial state: several vectors at once, every substance in its own unit
                 try:
@@ -277,6 +299,18 @@ def run_case(case):
                                     "f": {n: uc._tofloat(fs[i][k]) for k, n in enumerate(names)}} for i in range(len(SCAN_MULTS))]
                 except Exception as ex:  # noqa
                     obs["scan"] = {"error": type(ex).__name__, "msg": str(ex)[:160]}
+                # object history: reassign the constants of the same Reaction objects, build the system again
+                if mode == "inline":
+                    try:
+                        for rxn, r, k2 in zip(rxns, recs, a["kre"]):
+                            rxn.param = _law_param(dict(r, k=k2), "inline", gv)
+                        obs["reassign"] = _eval_rates(rsys, reg, mode, conc, t1, params, None, None, subs, use_constants)[2]["f"]
+                    except Exception as ex:  # noqa
+                        obs["reassign"] = {"error": type(ex).__name__, "msg": str(ex)[:160]}
+                    finally:
+                        for rxn, r in zip(rxns, recs):
+                            rxn.param = _law_param(r, "inline", gv)
+                obs["frame"] = _snap(conc, params, subs) == snap0        # nothing that was passed in has changed
                 if mode == "inline" and env["tsrc"] != "ramp" and not use_constants:
                     # the same rates straight from the reaction system, fed with quantities
                     try:
@@ -328,11 +362,11 @@ def judge(case, i, a, obs, e, gv):
     if "error" in obs:
         return "unexpected-" + obs["error"], {"rates": "get_odesys", "output": "odesys.integrate"}.get(a["op"], a["op"])
     op = a["op"]
-    if op in ("rate_accept", "k_accept") and a.get("how", "init") != "init":
+    if op in ("rate_accept", "k_accept") and a.get("how", "init") in ("method", "nochecks", "dontcheck"):
         fn = "Reaction" if op == "rate_accept" else "Equilibrium"
         if not obs["built"]:
             return "refused-with-checks-off", fn
-        if a["how"] == "nochecks":
+        if a["how"] in ("nochecks", "dontcheck"):
             return None
         fn += ".check_consistent_units"
         if op == "rate_accept" and obs["accepted"] != e["accept"]:
@@ -397,6 +431,16 @@ def judge(case, i, a, obs, e, gv):
             tot, scale = _sum_terms(e["rates"][s], gv)
             if not uc.close_abs(obs["f"][s], tot / back, tol, scale / back):
                 return "rate", "get_odesys"
+        if obs.get("frame") is False:
+            return "argument-changed", "get_odesys"
+        re = obs.get("reassign")
+        if re is not None:
+            if "error" in re:
+                return "unexpected-" + re["error"], "get_odesys(reassigned)"
+            for s in used:
+                tot, scale = _sum_terms(e["reassign"][s], gv)
+                if not uc.close_abs(re.get(s), tot / back, tol, scale / back):
+                    return "rate-after-reassignment", "get_odesys(reassigned)"
         scan = obs.get("scan")
         if scan is not None:
             if isinstance(scan, dict):
